@@ -87,6 +87,24 @@ fn snapshot(eg: &EG) -> (usize, usize, usize, Vec<(Id, usize, usize)>) {
     let ids = eg.ids();
     (eg.total_number_of_nodes(), ids.len(), eg.progress().number_of_classes, ids.iter().map(|i| (*i, eg.slots(*i).len(), eg.enodes(*i).len())).collect())
 }
+/// `t` with every binder renamed to a new name (bound occurrences follow, shadowing respected): an alpha-variant
+fn alpha_variant(t: &RecExpr<KL>, counter: &mut u32) -> RecExpr<KL> {
+    fn rename(t: &RecExpr<KL>, from: Slot, to: Slot) -> RecExpr<KL> {
+        match &t.node {
+            KL::Var(s) if *s == from => RecExpr { node: KL::Var(to), children: vec![] },
+            // an inner binder of the same name shadows: its body is left alone (the other child of `let` is not)
+            KL::Lam(b) if b.slot == from => t.clone(),
+            KL::Let(b, _) if b.slot == from => RecExpr { node: t.node.clone(), children: vec![t.children[0].clone(), rename(&t.children[1], from, to)] },
+            _ => RecExpr { node: t.node.clone(), children: t.children.iter().map(|c| rename(c, from, to)).collect() },
+        }
+    }
+    let children: Vec<RecExpr<KL>> = t.children.iter().map(|c| alpha_variant(c, counter)).collect();
+    match &t.node {
+        KL::Lam(b) => { *counter += 1; let nw = Slot::named(&format!("bound{}", counter)); RecExpr { node: KL::Lam(Bind { slot: nw, elem: b.elem.clone() }), children: vec![rename(&children[0], b.slot, nw)] } }
+        KL::Let(b, e) => { *counter += 1; let nw = Slot::named(&format!("bound{}", counter)); RecExpr { node: KL::Let(Bind { slot: nw, elem: b.elem.clone() }, e.clone()), children: vec![rename(&children[0], b.slot, nw), children[1].clone()] } }
+        _ => RecExpr { node: t.node.clone(), children },
+    }
+}
 /// all terms obtained from `t` by permuting the children of ONE inner node (at most 4 children), with the permuted sub-term
 fn child_permuted_variants(t: &RecExpr<KL>) -> Vec<(RecExpr<KL>, RecExpr<KL>, RecExpr<KL>)> {
     fn perms(n: usize) -> Vec<Vec<usize>> { if n == 0 { return vec![vec![]]; } let mut out = Vec::new(); for p in perms(n - 1) { for i in 0..n { let mut q = p.clone(); q.insert(i, n - 1); out.push(q); } } out }
@@ -185,6 +203,19 @@ fn observe(what: &str, h: &mut Hist, desc: &str) -> Result<(), String> {
             let hm: SlotMap = hd.m.iter().map(|(a, b)| { let nm = format!("{}", b); let nb = if nm.starts_with("$f") || nm.len() != 2 { b } else { Slot::named(&format!("1{}", &nm[1..])) }; (a, nb) }).collect();
             let h2 = AppliedId::new(hd.id, hm);
             if !eg.eq(&x2, &h2) { return Err(format!("C09:add.renaming-equivariant {}: inserting the renamed term {} gives {:?}, expected {:?}", desc, rn, x2, h2)); }
+            // alpha-renamed: every binder gets a new name
+            let mut ctr = 0u32;
+            let av = alpha_variant(s, &mut ctr);
+            if ctr > 0 {
+                let before = snapshot(eg);
+                match lookup_rec_expr(&av, eg) {
+                    None => return Err(format!("C09:lookup.agrees {}: lookup of {}, an alpha-variant of the inserted {}, fails", desc, av, s)),
+                    Some(l) => if !eg.eq(&l, &h.handles[k]) { return Err(format!("C09:lookup.agrees {}: lookup of the alpha-variant {} of {} gives {:?}, insertion gave {:?}", desc, av, s, l, h.handles[k])); }
+                }
+                let x3 = eg.add_expr(av.clone());
+                if before != snapshot(eg) { return Err(format!("C09:add.known-creates-nothing {}: inserting {}, an alpha-variant of the inserted {}, changed the e-graph", desc, av, s)); }
+                if !eg.eq(&x3, &h.handles[k]) { return Err(format!("C09:add.known-creates-nothing {}: inserting the alpha-variant {} of {} gives {:?}, expected {:?}", desc, av, s, x3, h.handles[k])); }
+            }
             // equal through earlier unions of subterms: a sub-term with permuted children that the e-graph already
             // holds and reports equal to the original sub-term; then the whole variant is represented (congruence)
             for (whole, sub, subv) in child_permuted_variants(s) {
@@ -227,6 +258,8 @@ fn hand_written() -> Vec<(Vec<&'static str>, Vec<(usize, usize)>)> {
         (vec!["(mul (var $1) zero)", "zero", "(mul (var $2) (var $3))", "(mul (var $3) (var $2))"], vec![(0, 1), (2, 3)]),
         // a symmetric class loses a slot outside the orbit of its symmetry: the symmetry must survive
         (vec!["(f3 (var $1) (var $2) (var $3))", "(f3 (var $2) (var $1) (var $3))", "(f3 (var $1) (var $2) zero)"], vec![(0, 1), (0, 2)]),
+        // shadowing binders, the same name bound twice, a bound name that is also free elsewhere, repeated free slots
+        (vec!["(lam $1 (lam $1 (var $1)))", "(lam $1 (app (var $1) (lam $1 (var $1))))", "(app (lam $1 (var $1)) (var $1))", "(app (lam $1 (var $1)) (lam $1 (app (var $1) (var $2))))", "(lam $2 (lam $1 (app (var $1) (var $2))))", "(lam $1 (lam $2 (app (var $2) (var $1))))", "(add (var $1) (var $1))", "(lam $3 (add (var $3) (add (var $1) (var $3))))"], vec![(0, 0)]),
         // a child whose group has elements that are neither the identity nor one of the stored generators (S3, Klein
         // four-group), below a parent with an asymmetric sibling over the same slots
         (vec!["(f3 (var $1) (var $2) (var $3))", "(f3 (var $2) (var $1) (var $3))", "(f3 (var $2) (var $3) (var $1))", "(add (f3 (var $1) (var $2) (var $3)) (sub (var $1) (sub (var $2) (var $3))))"], vec![(0, 1), (0, 2)]),
